@@ -289,6 +289,23 @@ static std::string runHistory(size_t nd, int kind, const std::string& fs, const 
       if (fs != "-" && !expected.empty() && res + "|" + docs + "|" + hd != expected) break;
       if (yieldSeed) { rs = rs * 1103515245u + 12345u; if ((rs >> 16) % 3 == 0) std::this_thread::yield(); }
     }
+    if (fs != "-") {
+      // with the failure schedule still in force: one more deep copy into every document through its root (always a valid
+      // reference).  An operation that reports success must have done all of its work: the copy equals its source
+      JsonDocument src;
+      src["k"] = std::string("an owned string value that needs its own node");
+      src["l"][0] = 1; src["l"][1] = std::string("another owned string, also copied"); src["l"][2]["m"] = 2.5;
+      src["z"] = std::string("third owned string value for the copy");
+      for (size_t i = 0; i < nd; i++) {
+        JsonVariant root = c.docs[i]->as<JsonVariant>();
+        bool ok; JsonVariantConst made;
+        if (root.is<JsonArray>()) { ok = root.add(src.as<JsonVariantConst>()); JsonArrayConst a_ = root.as<JsonArrayConst>(); made = a_[a_.size() ? a_.size() - 1 : 0]; }
+        else if (root.is<JsonObject>() || root.isNull()) { ok = (*c.docs[i])["\x01post"].set(src.as<JsonVariantConst>()); made = c.docs[i]->as<JsonVariantConst>()["\x01post"]; }
+        else continue;
+        if (ok && made != src.as<JsonVariantConst>()) out += "POST-SUCCESS-INCOMPLETE ;; ";
+        if (!ok && !c.docs[i]->overflowed()) out += "POST-FAILURE-NOT-FLAGGED ;; ";
+      }
+    }
     // read-only operations must not call the allocator
     size_t before = c.spy.log.size();
     for (size_t i = 0; i < nd; i++) {
